@@ -389,6 +389,10 @@ class AbstractHasAxes(AbstractHasMetadata):
 
         elif type(axis) is int:
             idx = axis
+            if idx < 0: # position counted from the end, as in numpy
+                idx += len(self.axes)
+                if idx < 0:
+                    raise IndexError("axis {} is out of bounds for {} dimensions".format(axis, len(self.axes)))
 
         else:
             raise TypeError("axis must be int or str, got:"+repr(axis))
